@@ -119,6 +119,15 @@ def determinism_selftest(prop, tier, count, in_process_digests=None):
     return {'runs': count, 'interpreters': 2, 'hashseeds': [0, 4242], 'identical': ok, 'first_diffs': diff[:5]}
 
 
+def worker_count_selftest(ad, tier, base, count):
+    """The same runs at two worker counts must give identical per-run event-log digests."""
+    from sim import runner
+    a = runner.run_batch(ad, tier, base, count, 3, 600)
+    b = runner.run_batch(ad, tier, base, count, min(16, os.cpu_count() or 1), 600)
+    return {'runs': count, 'worker_counts': [3, min(16, os.cpu_count() or 1)],
+            'identical': a['batch_digest'] == b['batch_digest'] and a['n'] == b['n'] == count}
+
+
 def cmd_check(prop, tier, nruns_override=None, workers=None, selftest=True):
     from sim import runner
     t0 = time.time()
@@ -137,6 +146,9 @@ def cmd_check(prop, tier, nruns_override=None, workers=None, selftest=True):
     det = None
     if selftest:
         det = determinism_selftest(prop, tier, 48 if tier == 'quick' else 400)
+        if tier == 'thorough':
+            det['worker_counts'] = worker_count_selftest(ad, tier, base, 600)
+            det['identical'] = det['identical'] and det['worker_counts']['identical']
         if not det['identical']:
             print('HARNESS-ERROR determinism self-test failed: %r' % det)
             write_evidence(prop, tier, base, ad, agg, det, [], [], time.time() - t0, status='harness_error')
@@ -218,6 +230,7 @@ def write_evidence(prop, tier, base, ad, agg, det, reported, known_hits, wall, s
         'stopped_by_deadline': agg['stopped_by_deadline'],
         'harness_errors': len(agg['harness_errors']),
         'determinism_selftest': det,
+        'batch_digest': {'sha256_of_sorted_(run index, event-log digest)': agg.get('batch_digest'), 'runs': len(agg.get('run_digests', []))},
         'known_findings_hit': known_hits,
         'diagnostics': agg['diagnostics'][:5],
         'status': status,
